@@ -154,6 +154,21 @@ impl SimRng {
         }
     }
 
+    /// raw generator state and position (for shipping a stream state to another process)
+    pub fn raw_state(&self) -> [u64; 5] {
+        [self.s[0], self.s[1], self.s[2], self.s[3], self.pos]
+    }
+    /// a fault-free stream continuing from a raw state
+    pub fn from_raw(st: [u64; 5]) -> Self {
+        let mut r = SimRng::new(0);
+        r.s = [st[0], st[1], st[2], st[3]];
+        r.pos = st[4];
+        r
+    }
+    pub fn pending_faults(&self) -> usize {
+        self.faults.as_slice().len() - self.next_fault
+    }
+
     pub fn with_faults(seed: u64, mut faults: Vec<Fault>) -> Self {
         faults.sort_by_key(|f| f.pos);
         let mut r = SimRng::new(seed);
